@@ -362,7 +362,7 @@ class Built:
         ins_after, outs_after = [id(w) for w in ins], [id(w) for w in outs]
         # ... and the caller is free to reuse its lists for something else afterwards: empty them, or go on
         # building the next, wider gate from the same list (append another wire, reorder)
-        mode = nid % 3
+        mode = nid % 3 if len(self.wires) <= 300 else 0      # (the search below is linear in the design: small designs only)
         extra = None
         if mode and ins0:
             w0 = ins0[0].getWidth()
@@ -510,7 +510,9 @@ class RefModel:
 # =========================================================================== stimulus
 
 def gen_vector(rng, inputs, prev=None):
-    """boundary-biased input vector; with prev, sometimes hold or flip everything (toggling)"""
+    """boundary-biased input vector; with prev, sometimes hold or flip everything (toggling).  Correlated patterns: all
+    inputs at one extreme except (at most) one; one input a copy of another of the same width, possibly with one bit
+    flipped (near-equal operands: the deciding bit of a comparison / reduction is anywhere, also at the very top)"""
     vec = []
     for k, i in enumerate(inputs):
         w = i['w']
@@ -520,12 +522,34 @@ def gen_vector(rng, inputs, prev=None):
             v = prev[k]
         elif prev is not None and r < 0.25:
             v = prev[k] ^ full
-        elif r < 0.55:
+        elif r < 0.50:
             v = rng.choice([0, 1, full, full - 1, 1 << (w - 1), (1 << (w - 1)) - 1, (1 << (w - 1)) + 1 if w > 1 else 1])
             v &= full
+        elif r < 0.58:
+            # one bit set / one bit clear, anywhere
+            v = (1 << rng.randrange(w)) if rng.random() < 0.5 else full ^ (1 << rng.randrange(w))
         else:
             v = rng.getrandbits(w)
         vec.append(v)
+    n = len(vec)
+    r = rng.random()
+    if n >= 2 and r < 0.10:
+        # every input at one extreme, except one
+        hi = rng.random() < 0.5
+        vec = [((1 << i['w']) - 1) if hi else 0 for i in inputs]
+        if rng.random() < 0.8:
+            k = rng.randrange(n)
+            w = inputs[k]['w']
+            vec[k] = rng.choice([vec[k] ^ (1 << rng.randrange(w)), rng.getrandbits(w), vec[k] ^ ((1 << w) - 1)])
+    elif n >= 2 and r < 0.22:
+        # near-equal operands
+        k = rng.randrange(n)
+        same = [j for j in range(n) if j != k and inputs[j]['w'] == inputs[k]['w']]
+        if same:
+            j = rng.choice(same)
+            vec[k] = vec[j]
+            if rng.random() < 0.6:
+                vec[k] ^= 1 << rng.randrange(inputs[k]['w'])
     return vec
 
 
@@ -655,6 +679,63 @@ class Twin:
     def values(self):
         bad = update_poison(self.b)
         return {r: (None if (bad and r[0] == 'n' and parse_ref(r)[1] in bad) else w.get()) for r, w in self.b.wires.items()}
+
+
+def deepen(desc, rng, levels, under=None):
+    """nest the blocks of one group (default: a seeded one; () = the whole design) `levels` blocks deeper: a hierarchy far
+    deeper than ordinary examples use.  Group-level settings (clock drivers) stay on the original group, `levels` above."""
+    groups = sorted({tuple(n['grp'][:k]) for n in desc['nodes'] for k in range(0, len(n['grp']) + 1)})
+    g = tuple(under) if under is not None else rng.choice(groups)
+    ext = ['dp%d' % i for i in range(levels)]
+    for n in desc['nodes']:
+        if tuple(n['grp'][:len(g)]) == g:
+            n['grp'] = list(g) + ext + list(n['grp'][len(g):])
+    gd = desc.get('group_driver')
+    if gd:
+        pre = '/'.join(g)
+        for k in sorted(gd):
+            if pre == '' or k.startswith(pre + '/'):
+                rest = k[len(pre) + 1:] if pre else k
+                gd['/'.join(list(g) + ext + [rest])] = gd.pop(k)
+    desc['deepened'] = [list(g), levels]
+    return g
+
+
+def bulk_design(n, seed, w=8):
+    """a large, shallow combinational netlist (each block reads one or two earlier ones, mostly recent) instantiated in a
+    shuffled order: thousands of leaves, so that an index field, a table or a counter inside the scheduler overflows.
+    Generated from (n, seed) so that scenarios stay small."""
+    import random as _r
+    rng = _r.Random(seed)
+    inputs = [{'name': 'i0', 'w': w}, {'name': 'i1', 'w': w}]
+    nodes = []
+
+    def src(j):
+        if j < 2:
+            return 'i%d' % j
+        return 'n%d.0' % rng.randrange(max(0, j - 64) if rng.random() < 0.8 else 0, j)
+    for j in range(n):
+        k = rng.choice(['Buf', 'Not', 'And2', 'Xor2', 'Or2'])
+        ins = [src(j)] if k in ('Buf', 'Not') else [src(j), src(j)]
+        nodes.append({'id': j, 'kind': k, 'p': {}, 'ins': ins, 'ow': [w], 'grp': []})
+    order = list(range(n))
+    rng.shuffle(order)
+    outs = ['n%d.0' % j for j in sorted(rng.sample(range(n), min(8, n)))]
+    return {'inputs': inputs, 'nodes': nodes, 'outputs': outs, 'order': list(range(n))}, order
+
+
+def bulk_ring(n, w, seed):
+    """a ring of n registers with seeded power-up values (no reset, no enable) plus a load mux at position 0"""
+    import random as _r
+    rng = _r.Random(seed)
+    inputs = [{'name': 'i0', 'w': w}, {'name': 'i1', 'w': 1}]
+    nodes = [{'id': 0, 'kind': 'Mux2', 'p': {}, 'ins': ['i1', 'n%d.0' % n, 'i0'], 'ow': [w], 'grp': []}]
+    for i in range(1, n + 1):
+        nodes.append({'id': i, 'kind': 'Reg', 'p': {'en': False, 'rs': False, 'rv': rng.getrandbits(w)},
+                      'ins': ['n%d.0' % (i - 1)], 'ow': [w], 'grp': []})
+    order = list(range(n + 1))
+    rng.shuffle(order)
+    return {'inputs': inputs, 'nodes': nodes, 'outputs': ['n%d.0' % n], 'order': list(range(n + 1)), 'ring': n}, order
 
 
 def underscore_names(desc, rng):
